@@ -38,6 +38,8 @@ def replay(case):
 def classify(v):
     if v.sig == "known:map-empty-type-change":
         return "C01-map-empty-type"
+    if v.sig == "known:lambda-rec-stack-order":
+        return "C01-lambda-rec-stack-order"
     return None
 
 
